@@ -32,7 +32,7 @@ NAX = (2048, 4096)
 
 def make_header(proj, crval, scale, rot, flip, crpix):
     """proj in TAN, TPV, TPV0 (no constant PV terms), TPVS (PV set rescaled by 0.3),
-    TANPV (old scamp spelling: -TAN ctype with PV keys), SIP2, SIP3"""
+    TANPV (old scamp spelling: -TAN ctype with PV keys), SIP2, SIP3, SIP4"""
     c, s = np.cos(np.deg2rad(rot)), np.sin(np.deg2rad(rot))
     sc = scale / 3600.0
     h = dict(naxis1=NAX[0], naxis2=NAX[1], crpix1=float(crpix[0]), crpix2=float(crpix[1]),
@@ -52,12 +52,14 @@ def make_header(proj, crval, scale, rot, flip, crpix):
             if proj == "TPV0" and k in ("pv1_0", "pv2_0"):
                 val = 0.0
             h[k] = val
-    elif proj in ("SIP2", "SIP3"):
+    elif proj in ("SIP2", "SIP3", "SIP4"):
         order = int(proj[-1])
         h.update(ctype1="RA---TAN-SIP", ctype2="DEC--TAN-SIP", a_order=order, b_order=order,
                  ap_order=order + 1, bp_order=order + 1)
         co = {(2, 0): 1e-6, (1, 1): -2e-6, (0, 2): 3e-6, (3, 0): 1e-10, (2, 1): -2e-10, (1, 2): 1.5e-10,
-              (0, 3): -1e-10}
+              (0, 3): -1e-10,
+              # fourth order: coefficients below the float64 epsilon, yet 1e-3 px at the chip corners
+              (4, 0): 1.0e-16, (3, 1): -5.0e-17, (2, 2): 8.0e-17, (1, 3): 4.0e-17, (0, 4): -1.2e-16}
         for (p, q), v in co.items():
             if p + q <= order:
                 h["a_%d_%d" % (p, q)] = v
